@@ -447,7 +447,7 @@ impl Monitor for C11 {
                         }
                     }
                     eng::ExecuteMsg::ClosePosition { .. } => {
-                        if path == "close_position" {
+                        if path == "close_position" || path.starts_with("close_position+") {
                             label = "close".into();
                             if let Some(s0) = swaps.first() {
                                 let e = m0.add(view.pnl_for(s0.quote)).sub(f);
@@ -604,8 +604,16 @@ impl Monitor for C12 {
                     if let Some(n) = self.pre_notional {
                         check(r, "close", n, &st.pre.vamms[vi]);
                     }
+                } else if path.starts_with("partial_close_position") {
+                    // a partial close is a quote-denominated trade: the engine asks the vAMM to swap a quote
+                    // amount, and (first clause of the property) the fee basis of a trade is the quote amount
+                    // requested to trade; that amount is observed as the change of the vAMM's quote reserve
+                    r.eval();
+                    let (a, b) = (&st.pre.vamms[vi], &st.post.vamms[vi]);
+                    let traded = if a.q > b.q { a.q - b.q } else { b.q - a.q };
+                    check(r, "partial-close", traded, &st.pre.vamms[vi]);
                 } else {
-                    r.count("fees:partial-close-not-pinned");
+                    r.count("fees:close-path-not-pinned");
                 }
             }
             eng::ExecuteMsg::DepositMargin { .. } | eng::ExecuteMsg::WithdrawMargin { .. } => {
